@@ -3,6 +3,7 @@ import KyupyVerif.Props.C10Datasheet
 import KyupyVerif.Proofs.VerilogLib5
 import KyupyVerif.Proofs.VerilogLib6
 import KyupyVerif.Proofs.VerilogLibFit
+import KyupyVerif.Proofs.FormatEquiv
 /-! # C11 (capstone) — structural Verilog over a CELL LIBRARY: text → parse → `resolve_tlib_cells` → `SimOps` → `LogicSim`
 computes the DATASHEET denotation of the module
 
@@ -50,6 +51,8 @@ state element by its kind name), input port bits, assign pairs and undriven name
     (Proofs/VerilogLibFit.lean `vModelLib_iff_byName`); (d) restated with `VModelLibN`.  The crossed pin table of the audit witness
     (`exTLx`: every other hypothesis true, index reading `b1 ∨ (a ∧ b2)`) has `tlFitsB = false` (kernel-checked example).
   - `vArityLib_of_vArity` — `vArityB` (C11) implies the arity domain `vArityLibB` of the capstone.
+  - `bench_verilog_equiv_partial` — "either format", gate clause ONLY (see the comment above it for the unproved netlist-level
+    statement): the primitive-library instance rendering a bench gate statement drives its name and computes the same value.
   - non-vacuity (section `Example`): NANGATE `AOI21_X1` feeding `INV_X1` (real implementation dumps, rows of the generated tables),
     and the same with a flip-flop `DFF` as PRIMITIVE state element in a feedback loop: every hypothesis by `decide +kernel`, the
     theorem applied (from the text; line value resp. captured values = those of the datasheet model the evaluator computes).
@@ -331,6 +334,31 @@ theorem vArityLib_of_vArity (isLib : String → Bool) (tl : TL) (stmts : List St
   rcases h i hi with h1 | h1
   · exact Or.inl (Or.inr h1)
   · exact Or.inr (by simpa using h1)
+
+/-! ### "the same netlist written in either format" — PARTIAL (audit-2 B-C11-4)
+
+FULL STATEMENT (NOT proved; stays with the oracle `format-equivalence` of harness/c11.py `run_netlist`):
+  for a netlist description `nl` (input names `pis`, output names `pos`, gates `name = K(drv…)` with an instance name each) in the
+  common fragment `nlOKB nl` (decidable: names pairwise different, no name a constant literal or an instance name, every operand
+  and every output an input or a gate name, at most four operands, kinds of the primitive library) and its two renderings
+  `benchOf nl : List BStmt`, `verilogOf nl : List Stmt` (single-bit declarations, one `instOfGate` per gate, pin table `primTL`):
+    `theorem bench_verilog_equiv : ∀ a σ, BenchModel (benchOf nl) z prim a σ ↔ VModel primTL (nl.pis ++ nl.pos) (verilogOf nl) z neg prim a σ`
+  — with `bench_parsed_sem` / `verilog_parsed_sem`: both circuits have the same consistent labellings on the named signals.
+PROVED (`bench_verilog_equiv_partial`): the gate clause — the instance that renders a combinational bench statement drives exactly
+the signal `name` (output connection list `[(0, name)]`) and the value `VModel` requires on it (`instVal`) is the value `BenchModel`
+requires (`gateVal`), any value domain.  MISSING: the bookkeeping around it — `sigDecls` / `inputNames` / `posNames` of the
+single-bit declarations, equality of the interface positions (`vSPos` of port cells vs `benchSPos` of port forks, state elements),
+the clause for names without driver, state elements (`isSeqKind`). -/
+theorem bench_verilog_equiv_partial {α : Type} (z : α) (neg : α → α) (prim : String → α → α → α → α → α) (a : Nat → α) (pos : Nat)
+    (ds : List Decl) (K inst name : String) (drv : List String) (hlen : drv.length ≤ 4) (hseq : KV.Netlist.isSeqKind K = false)
+    (hc : ∀ d ∈ drv, isConstLit d = false) (σ : String → α) :
+    outConn primTL ds (instOfGate K inst name drv) = [(0, (outSig ds name).1)] ∧
+    instVal primTL z neg prim a pos (instOfGate K inst name drv) 0 σ = gateVal z prim K drv σ :=
+  ⟨outConn_instOfGate ds K inst name drv hlen, gate_format_equiv z neg prim a pos K inst name drv hlen hseq hc σ⟩
+
+/-- the hypotheses hold for `n = NAND(a, b, c)`: the instance is `NAND g(.o(n), .i0(a), .i1(b), .i2(c))` -/
+example : (instOfGate "NAND" "g" "n" ["a", "b", "c"]).pins = [("o", .one "n"), ("i0", .one "a"), ("i1", .one "b"), ("i2", .one "c")] ∧
+    KV.Netlist.isSeqKind "NAND" = false ∧ (["a", "b", "c"].all fun d => !isConstLit d) = true := by decide +kernel
 
 /-- the driver's acceptance check is sound: an accepted table IS a datasheet model -/
 theorem verilog_lib_checker_sound (isLib : String → Bool) (row : String → Cell) (tl : TL) (ports : List String) (stmts : List Stmt)
